@@ -49,7 +49,7 @@ theorem minv_frame {σ σ' : St} (t : Nat) (M : MInv σ)
 macro "tl_auto2" : tactic =>
   `(tactic| (simp_all [St.goto, St.gotoF, St.flush, St.setTh, St.setHd, upd,
       PC.sendOp, PC.singleSendX, PC.singleSend, PC.recvOp, PC.recvActive, PC.viewPC, PC.cloneS, PC.remPC, PC.afterNew,
-      PC.addPC, PC.kOK, PC.newPath, Outer.futConv, Outer.viewCall, newHd, newHd0, Th.creating]; done))
+      PC.addPC, PC.kOK, PC.newPath, PC.sgFlag, Th.sgOn, Outer.futConv, Outer.viewCall, newHd, newHd0, Th.creating]; done))
 
 theorem minv_arc {σ : St} (t : Nat) (M : MInv σ) : MInv (step σ (.arc t)) := by
   by_cases hr : ∃ r, (σ.th t).pc = .arc r
@@ -62,8 +62,9 @@ theorem minv_arc {σ : St} (t : Nat) (M : MInv σ) : MInv (step σ (.arc t)) := 
   obtain ⟨r, hpc⟩ := hr
   have e : step σ (.arc t) = arcStep σ t r := by simp only [step, hpc]
   rw [e]
-  obtain ⟨l1, l2, l3, l4, l5, l6, l7, l8, l9, l10, l11, l12, l13, l14, l15, l16, l17, l18, l19, l20, l21, l22⟩ := M.thr t
-  rw [hpc] at l1 l2 l3 l4 l5 l6 l7 l8 l9 l10 l11 l12 l13 l14 l15 l16 l17 l18 l19 l20 l21 l22
+  obtain ⟨l1, l2, l3, l4, l5, l6, l7, l8, l9, l10, l11, l12, l13, l14, l15, l16, l17, l18, l19, l20, l21, l22, l23⟩ := M.thr t
+  simp only [Th.sgOn] at l23
+  rw [hpc] at l1 l2 l3 l4 l5 l6 l7 l8 l9 l10 l11 l12 l13 l14 l15 l16 l17 l18 l19 l20 l21 l22 l23
   have l6' := l6 r rfl
   apply minv_frame t M
   · intro u hu; unfold arcStep; simp only []; repeat' split
@@ -75,7 +76,7 @@ theorem minv_arc {σ : St} (t : Nat) (M : MInv σ) : MInv (step σ (.arc t)) := 
     all_goals rfl
   · unfold arcStep; simp only []; repeat' split
     all_goals
-      refine ⟨?_, ?_, ?_, ?_, ?_, ?_, ?_, ?_, ?_, ?_, ?_, ?_, ?_, ?_, ?_, ?_, ?_, ?_, ?_, ?_, ?_, ?_⟩
+      refine ⟨?_, ?_, ?_, ?_, ?_, ?_, ?_, ?_, ?_, ?_, ?_, ?_, ?_, ?_, ?_, ?_, ?_, ?_, ?_, ?_, ?_, ?_, ?_⟩
     all_goals first | tl_auto2 | (cases r <;> tl_auto2)
   · intro _; rw [hpc]; refine ⟨by simp, ?_⟩
     unfold arcStep; simp only []; repeat' split
@@ -98,23 +99,24 @@ theorem minv_wake {σ : St} (t : Nat) (M : MInv σ) : MInv (step σ (.wake t)) :
   obtain ⟨j, seq, hpc, hc⟩ := hr
   have e : step σ (.wake t) = σ.goto t (.c1 j seq .after) := by simp only [step, hpc]; rw [if_neg hc]
   rw [e]
-  obtain ⟨l1, l2, l3, l4, l5, l6, l7, l8, l9, l10, l11, l12, l13, l14, l15, l16, l17, l18, l19, l20, l21, l22⟩ := M.thr t
-  rw [hpc] at l1 l2 l3 l4 l5 l6 l7 l8 l9 l10 l11 l12 l13 l14 l15 l16 l17 l18 l19 l20 l21 l22
+  obtain ⟨l1, l2, l3, l4, l5, l6, l7, l8, l9, l10, l11, l12, l13, l14, l15, l16, l17, l18, l19, l20, l21, l22, l23⟩ := M.thr t
+  simp only [Th.sgOn] at l23
+  rw [hpc] at l1 l2 l3 l4 l5 l6 l7 l8 l9 l10 l11 l12 l13 l14 l15 l16 l17 l18 l19 l20 l21 l22 l23
   apply minv_frame t M
   · intro u hu; simp [St.goto, St.setTh, upd, hu]
   · rfl
   · rfl
   · rfl
-  · refine ⟨?_, ?_, ?_, ?_, ?_, ?_, ?_, ?_, ?_, ?_, ?_, ?_, ?_, ?_, ?_, ?_, ?_, ?_, ?_, ?_, ?_, ?_⟩
+  · refine ⟨?_, ?_, ?_, ?_, ?_, ?_, ?_, ?_, ?_, ?_, ?_, ?_, ?_, ?_, ?_, ?_, ?_, ?_, ?_, ?_, ?_, ?_, ?_⟩
     all_goals tl_auto2
   · intro _; rw [hpc]; exact ⟨by simp, by simp [St.goto, St.setTh, upd]⟩
   · intro hc; exfalso
     simp [Th.creating, St.goto, St.setTh, upd, PC.cloneS, PC.addPC, PC.afterNew] at hc
 
 theorem TLoc_idle {σ : St} {y : Th} (h : y.pc = .idle) : TLoc σ y := by
-  refine ⟨?_, ?_, ?_, ?_, ?_, ?_, ?_, ?_, ?_, ?_, ?_, ?_, ?_, ?_, ?_, ?_, ?_, ?_, ?_, ?_, ?_, ?_⟩
+  refine ⟨?_, ?_, ?_, ?_, ?_, ?_, ?_, ?_, ?_, ?_, ?_, ?_, ?_, ?_, ?_, ?_, ?_, ?_, ?_, ?_, ?_, ?_, ?_⟩
   all_goals simp [h, PC.sendOp, PC.singleSendX, PC.singleSend, PC.recvOp, PC.recvActive, PC.viewPC, PC.cloneS, PC.remPC,
-    PC.afterNew, PC.addPC, PC.kOK, PC.newPath]
+    PC.afterNew, PC.addPC, PC.kOK, PC.newPath, PC.sgFlag, Th.sgOn]
 
 theorem not_creating_idle {y : Th} (h : y.pc = .idle) : ¬ y.creating := by
   intro hc; simp [Th.creating, h, PC.cloneS, PC.addPC, PC.afterNew] at hc
@@ -131,14 +133,15 @@ theorem minv_retn {σ : St} (t : Nat) (M : MInv σ) : MInv (step σ (.retn t)) :
     rw [this]; exact M
   obtain ⟨r, hpc⟩ := hr
   have hxi : (σ.th t).pc ≠ .idle := by rw [hpc]; simp
-  obtain ⟨l1, l2, l3, l4, l5, l6, l7, l8, l9, l10, l11, l12, l13, l14, l15, l16, l17, l18, l19, l20, l21, l22⟩ := M.thr t
-  rw [hpc] at l1 l2 l3 l4 l5 l6 l7 l8 l9 l10 l11 l12 l13 l14 l15 l16 l17 l18 l19 l20 l21 l22
+  obtain ⟨l1, l2, l3, l4, l5, l6, l7, l8, l9, l10, l11, l12, l13, l14, l15, l16, l17, l18, l19, l20, l21, l22, l23⟩ := M.thr t
+  simp only [Th.sgOn] at l23
+  rw [hpc] at l1 l2 l3 l4 l5 l6 l7 l8 l9 l10 l11 l12 l13 l14 l15 l16 l17 l18 l19 l20 l21 l22 l23
   have hnc := l2 (by simp)
   obtain ⟨hbusy, hused⟩ := l1 (by simp)
   have hstrm := l7 (by simp)
   have hnew : ((σ.th t).outer = .clone ∨ (σ.th t).outer = .addStream) → r = .new := by
     intro ho; apply Classical.byContradiction; intro hne
-    have : (PC.ret r).newPath = false := by cases r <;> simp_all [PC.newPath, PC.cloneS, PC.addPC, PC.afterNew]
+    have : (PC.ret r).newPath = false := by cases r <;> simp_all [PC.newPath, PC.sgFlag, Th.sgOn, PC.cloneS, PC.addPC, PC.afterNew]
     obtain ⟨a, b⟩ := l22 (by simp) this
     rcases ho with h | h
     · exact a h
